@@ -444,6 +444,26 @@ func (a *boundAn) exitBounded(h *ssa.BasicBlock, body map[*ssa.BasicBlock]bool, 
 			}
 		}
 	}
+	// growing accumulator: stays while len(r) < limit where r is a header phi of slice type that every trip around the loop
+	// replaces by append(r, ...): a counter that starts at a length and goes up by at least one
+	if call, ok := bin.X.(*ssa.Call); ok && builtinName(&call.Call) == "len" && (op == token.LSS || op == token.LEQ || op == token.NEQ) {
+		if phi, ok := call.Call.Args[0].(*ssa.Phi); ok && phi.Block() == h {
+			if _, isSl := phi.Type().Underlying().(*types.Slice); isSl {
+				grows := true
+				for i, e := range phi.Edges {
+					if body[h.Preds[i]] && !appendsTo(e, phi, 0) {
+						grows = false
+					}
+				}
+				if grows {
+					if a.bounded(bin.Y, ec.iff.Block(), nil, true) {
+						return true, "appends to the slice whose length it compares with a limit bounded above"
+					}
+					return false, fmt.Sprintf("the loop appends until the slice has (%s) elements, which is not bounded above by input sizes", a.describe(bin.Y))
+				}
+			}
+		}
+	}
 	// shrinking text held in a field: stays while len(c.rest) > 0 where every trip around the loop calls a method of the
 	// repository on the same receiver that stores a reslice of that field back into it (a cursor consuming its text)
 	if call, ok := bin.X.(*ssa.Call); ok && builtinName(&call.Call) == "len" && (op == token.GTR || op == token.NEQ) {
@@ -935,6 +955,34 @@ func knownNonEmpty(b *ssa.BasicBlock, s ssa.Value) bool {
 				return true
 			}
 		}
+	}
+	return false
+}
+
+// appendsTo: v is append(acc, ...) with at least one element, possibly merged over the branches of the loop body.
+func appendsTo(v ssa.Value, acc *ssa.Phi, depth int) bool {
+	if depth > 3 {
+		return false
+	}
+	switch x := v.(type) {
+	case *ssa.Call:
+		if builtinName(&x.Call) != "append" || len(x.Call.Args) != 2 {
+			return false
+		}
+		if c, isConst := x.Call.Args[1].(*ssa.Const); isConst && c.IsNil() {
+			return false // append(r) with nothing to add
+		}
+		return x.Call.Args[0] == ssa.Value(acc) || appendsTo(x.Call.Args[0], acc, depth+1)
+	case *ssa.Phi:
+		if x == acc {
+			return false
+		}
+		for _, e := range x.Edges {
+			if !appendsTo(e, acc, depth+1) {
+				return false
+			}
+		}
+		return len(x.Edges) > 0
 	}
 	return false
 }
